@@ -795,6 +795,10 @@ impl Line {
                         return Line::None;
                     }
                 }
+                /* Only "=" may separate the filename from its value */
+                if field == 2 && s != b"=" {
+                    return Line::None;
+                }
                 /* Record size or hash */
                 if field == 3 {
                     value = match String::from_utf8(s.to_vec()) {
@@ -803,6 +807,10 @@ impl Line {
                     }
                 }
                 field += 1;
+            }
+            /* A line without a value is not an entry. */
+            if field < 4 {
+                return Line::None;
             }
             /*
              * Valid actions are "Size", or a valid Digest type.  Anything
